@@ -298,6 +298,8 @@ class ExprMixin:
                     return BoundV(o, v)
                 if own is not None:
                     return v
+            if o.closed:
+                raise PyRaise_(AttributeError(f"'{o.name}' object has no attribute '{name}'"))
             raise Unsupported(f"attribute {name} of symbolic object {o.name}")
         if isinstance(o, ClassV):
             if name == "__name__":
